@@ -101,9 +101,18 @@ class Fn:
 
 
 class Bound:
-    def __init__(self, fi: FuncInfo, obj: object) -> None:
+    def __init__(self, fi: FuncInfo, obj: object, exact: bool = False) -> None:
         self.fi = fi
         self.obj = obj
+        self.exact = exact  # reached through super(): no virtual dispatch
+
+
+class SuperRef:
+    """`super()` inside a method of `cls`, for the receiver `obj`."""
+
+    def __init__(self, obj: object, cls: ClassInfo) -> None:
+        self.obj = obj
+        self.cls = cls
 
 
 class Closure:
@@ -133,10 +142,11 @@ class LibRef:
 class NativeObj:
     """A model object supplied by a rule (e.g. an `Import` with fixed importer / importee)."""
 
-    def __init__(self, label: str, methods: dict, attrs: dict | None = None) -> None:
+    def __init__(self, label: str, methods: dict, attrs: dict | None = None, poison_ok: bool = False) -> None:
         self.label = label
         self.methods = methods
         self.attrs = attrs or {}
+        self.poison_ok = poison_ok  # the methods want to see undetermined arguments (a model that records that it became unreliable)
 
     def __repr__(self) -> str:
         return self.label
@@ -241,10 +251,11 @@ def _deep_poison(v: object, depth: int = 0) -> bool:
 
 
 class Evaluator:
-    def __init__(self, repo: Repo, tolerant: bool = False, intercept: dict | None = None, budget: int = 400_000, max_depth: int = 40) -> None:
+    def __init__(self, repo: Repo, tolerant: bool = False, intercept: dict | None = None, budget: int = 400_000, max_depth: int = 40, lib_models: dict | None = None) -> None:
         self.repo = repo
         self.tolerant = tolerant
         self.intercept = intercept or {}  # class fq -> callback(args, kwargs, uncertain) -> value
+        self.lib_models = lib_models or {}  # dotted library name -> callback(args, kwargs) -> model value (e.g. networkx.DiGraph)
         self.budget = budget
         self.steps = 0
         self.max_depth = max_depth
@@ -254,6 +265,7 @@ class Evaluator:
         self.stmt_hooks: dict[int, object] = {}  # id(stmt) -> callback(frame)
         self.substitute: dict[str, FuncInfo] = {}  # fq -> function evaluated in its place (an inline view of it)
         self.notes: list[str] = []  # why something became POISON (diagnostics)
+        self.uncertain_exits = 0  # undetermined branches that may have left a function / loop (what ran afterwards is not certain)
 
     # ------------------------------------------------------------------ helpers
     def _tick(self) -> None:
@@ -551,6 +563,7 @@ class Evaluator:
             raise Unknown("branch on an undetermined condition")
         self._poison_targets(stmts, fr)
         j = self._has_jump(stmts, loop_jumps=not own_loop)
+        self.uncertain_exits += 1  # (counted for every undetermined branch: what it would have done is not known either)
         if j == "function":
             fr.uncertain = True
         elif j == "loop":
@@ -683,6 +696,8 @@ class Evaluator:
 
     @staticmethod
     def _iterable(v: object) -> bool:
+        if isinstance(v, NativeObj) and "__iter__" in v.methods:
+            return True
         if isinstance(v, (Obj, Fn, Bound, Closure, Partial, ClassRef, LibRef, NativeObj, _Poison)):
             return False
         try:
@@ -693,6 +708,8 @@ class Evaluator:
 
     def _iterate(self, v: object):
         n = 0
+        if isinstance(v, NativeObj) and "__iter__" in v.methods:
+            v = list(v.methods["__iter__"]())
         for x in v:  # type: ignore[attr-defined]
             n += 1
             if n > 20000:
@@ -807,6 +824,8 @@ class Evaluator:
                 m = self.repo.lookup_method(o.cls, "__getitem__")
                 if m is not None:
                     return self.call_function(m, [k], {}, o)
+            if isinstance(o, NativeObj) and "__getitem__" in o.methods:
+                return o.methods["__getitem__"](k)
             if type(o).__name__ == "_PathParents":
                 try:
                     return o[k]  # type: ignore[index]
@@ -910,6 +929,9 @@ class Evaluator:
                 raise Unknown("identity of two equal immutable values is an implementation detail")
             return same if op is ast.Is else not same
         if op in (ast.In, ast.NotIn):
+            if isinstance(b, NativeObj) and "__contains__" in b.methods:
+                r = self._truth(b.methods["__contains__"](a))
+                return r if r is POISON else (r if op is ast.In else not r)
             if isinstance(b, Obj):
                 m = self.repo.lookup_method(b.cls, "__contains__")
                 if m is None:
@@ -1053,12 +1075,28 @@ class Evaluator:
             return self._class_attr(o.cls, attr, o)
         if isinstance(o, ClassRef):
             return self._class_attr(o.cls, attr, None)
+        if isinstance(o, SuperRef):
+            start = o.obj.cls if isinstance(o.obj, (Obj, ClassRef)) else o.cls
+            mro = self.repo.mro(start)
+            if o.cls not in mro:
+                raise Unknown("super(): receiver is not an instance of the defining class")
+            for c in mro[mro.index(o.cls) + 1:]:
+                if attr in c.methods:
+                    m = c.methods[attr]
+                    if m.is_property or m.is_classmethod:
+                        raise Unknown(f"super().{attr}: properties / class methods are not modelled")
+                    return Fn(m) if m.is_staticmethod else Bound(m, o.obj, exact=True)
+            if attr == "__init__" and not self.repo.external_bases(o.cls):
+                return model(lambda *a, **k: None)  # object.__init__
+            raise Unknown(f"super().{attr} is not defined in the analysed code")
         if isinstance(o, NativeObj):
             if attr in o.attrs:
                 return o.attrs[attr]
             if attr in o.methods:
                 fn = o.methods[attr]
-                return model(lambda *a, **k: fn(*a, **k))
+                w = model(lambda *a, **k: fn(*a, **k))
+                w._c09_takes_poison = o.poison_ok
+                return w
             raise Unknown(f"`{attr}` of {o.label}")
         if isinstance(o, LibRef):
             name = f"{o.name}.{attr}"
@@ -1128,6 +1166,15 @@ class Evaluator:
 
     # ------------------------------------------------------------------ calls
     def _call(self, e: ast.Call, fr: Frame):
+        if isinstance(e.func, ast.Name) and e.func.id == "super" and not e.args and not e.keywords and not fr.env.lookup("super")[0]:
+            fi = fr.fi
+            while fi is not None and fi.outer is not None:
+                fi = fi.outer
+            if fi is not None and fi.cls is not None and not fi.is_staticmethod and fi.param_names:
+                found, recv = fr.env.lookup(fi.param_names[0])
+                if found and isinstance(recv, (Obj, ClassRef)):
+                    return SuperRef(recv, fi.cls)
+            raise Unknown("super() outside a method")
         f = self.ev(e.func, fr)
         args: list = []
         for a in e.args:
@@ -1166,7 +1213,7 @@ class Evaluator:
             return self.call_function(f.fi, args, kwargs)
         if isinstance(f, Bound):
             fi = f.fi
-            if isinstance(f.obj, Obj):
+            if isinstance(f.obj, Obj) and not f.exact:
                 impl = self.repo.lookup_method(f.obj.cls, fi.name)
                 fi = impl if impl is not None else fi
             if fi.is_staticmethod:
@@ -1180,6 +1227,15 @@ class Evaluator:
             return self._construct(f.cls, args, kwargs)
         if isinstance(f, LibRef):
             return self._lib_call(f.name, args, kwargs)
+        if isinstance(f, Obj):
+            m = self.repo.lookup_method(f.cls, "__call__")
+            if m is None:
+                raise Raised("TypeError")
+            return self.call_function(m, args, kwargs, f)
+        if isinstance(f, NativeObj) and "__call__" in f.methods:
+            w = model(f.methods["__call__"])
+            w._c09_takes_poison = f.poison_ok
+            return self._native(w, args, kwargs)
         if callable(f):
             return self._native(f, args, kwargs)
         raise Raised("TypeError")
@@ -1211,6 +1267,8 @@ class Evaluator:
         return o
 
     def _lib_call(self, name: str, args: list, kwargs: dict):
+        if name in self.lib_models:
+            return self.lib_models[name](args, kwargs)
         if name in ("functools.partial",):
             if not args:
                 raise Raised("TypeError")
@@ -1225,6 +1283,36 @@ class Evaluator:
                 if not self._iterable(i):
                     raise Raised("TypeError")
             return iter([self.apply(args[0], list(xs)) for xs in zip(*[list(self._iterate(i)) for i in its])])
+        if name in ("itertools.accumulate", "functools.reduce"):
+            # accumulate(iterable, func=operator.add, *, initial=None) / reduce(func, iterable[, initial])
+            if name == "itertools.accumulate":
+                seq, fn = (args[0] if args else POISON), (args[1] if len(args) > 1 else kwargs.get("func"))
+                has_init, init = kwargs.get("initial") is not None, kwargs.get("initial")
+            else:
+                if len(args) < 2:
+                    raise Raised("TypeError")
+                fn, seq = args[0], args[1]
+                has_init, init = len(args) > 2, (args[2] if len(args) > 2 else None)
+            if seq is POISON or fn is POISON or init is POISON:
+                return POISON
+            if not self._iterable(seq):
+                raise Raised("TypeError")
+            items = list(self._iterate(seq))
+            if has_init:
+                items = [init, *items]
+            steps: list = []
+            for x in items:
+                if not steps:
+                    steps.append(x)
+                else:
+                    steps.append(self._binop(ast.Add, steps[-1], x) if fn is None else self.apply(fn, [steps[-1], x]))
+                if steps[-1] is POISON:
+                    return POISON
+            if name == "functools.reduce":
+                if not steps:
+                    raise Raised("TypeError")
+                return steps[-1]
+            return iter(steps)
         if name == "builtins.filter":
             if len(args) != 2:
                 raise Raised("TypeError")
@@ -1305,6 +1393,8 @@ class Evaluator:
         raise Unknown(f"library call {name}")
 
     def _native(self, f: object, args: list, kwargs: dict):
+        if getattr(f, "_c09_model", False) and getattr(f, "_c09_takes_poison", False):
+            return f(*args, **kwargs)  # type: ignore[operator]
         vals = [*args, *kwargs.values()]
         recv = getattr(f, "__self__", None)
         if any(v is POISON for v in vals):
